@@ -19,6 +19,7 @@
 #include <string>
 #include <vector>
 
+#include <time.h>
 #include <mujoco/mujoco.h>
 
 void nd_tolerated_fwd(const char* cls, const char* msg);
@@ -50,6 +51,10 @@ inline std::string g_scenario;      // one-line description of the case in progr
 inline std::string g_blob;          // bulky context (model XML ...) stored in the fail file
 inline bool g_in_case = false;
 inline std::map<std::string, uint64_t> g_count;
+inline double g_budget_s = 0;
+inline double now_s() { timespec ts; clock_gettime(CLOCK_MONOTONIC, &ts); return ts.tv_sec + 1e-9 * ts.tv_nsec; }
+inline double g_t0 = now_s();
+
 inline std::set<uint64_t> g_sigs;   // signatures of distinct non-trivial cases
 inline std::vector<std::string> g_samples;
 
@@ -62,6 +67,7 @@ inline void parse_args(int argc, char** argv) {
     std::string a = argv[i];
     auto nx = [&]() -> const char* { return i + 1 < argc ? argv[++i] : ""; };
     if (a == "--seed") g_args.seed0 = strtoull(nx(), 0, 10);
+    else if (a == "--budget") g_budget_s = atof(nx());
     else if (a == "--n") g_args.n = strtoull(nx(), 0, 10);
     else if (a == "--faildir") g_args.faildir = nx();
     else if (a == "--drop") parse_set(nx(), g_args.drop);
@@ -177,7 +183,12 @@ inline void install_mj_handlers() { mju_user_error = on_error; mju_user_warning 
 #define ND_GUARD(stmt) ([&]() -> bool { jmp_buf jb_; jmp_buf* prev_ = nd::g_jmp; nd::g_jmp = &jb_; bool err_ = false; \
                                         if (setjmp(jb_)) { err_ = true; } else { stmt; } nd::g_jmp = prev_; return err_; }())
 
-inline void begin_case(uint64_t seed) { g_seed = seed; g_scenario.clear(); g_blob.clear(); g_in_case = true; g_lasterr[0] = 0; }
+// wall-clock budget of a shard (--budget seconds, 0 = none): checked between cases only, so it decides how many seeds a shard gets through,
+// never what happens inside a case; a shard that runs out of budget prints its summary for the cases it completed and exits 0
+inline void print_summary();
+inline void begin_case(uint64_t seed) {
+  if (g_budget_s > 0 && now_s() - g_t0 > g_budget_s) { g_count["stopped_by_time_budget"]++; print_summary(); fflush(stdout); exit(0); }
+  g_seed = seed; g_scenario.clear(); g_blob.clear(); g_in_case = true; g_lasterr[0] = 0; }
 inline void end_case() { g_in_case = false; count("cases"); }
 
 inline void print_summary() {
